@@ -40,7 +40,7 @@ eb6719b:C08
 5445fef:C01
 6478494:C02
 93cb533:C18
-614b0db:C17
+5286ef6+614b0db:C17
 f474c9d:C17
 e0ba138:C09
 2930c12:C09
@@ -51,22 +51,29 @@ aa19a68:C16
 0072067:C01,C02
 aaea8f1:C01
 fc8744a:C17
+5286ef6:C17
+7b7bbd6:C17
 4480891:C04,C01
 d61bc2a:C19
 "
 [ -n "$REVERT_ONLY" ] && PAIRS="$REVERT_ONLY"
 for pair in $PAIRS; do
   sha=${pair%%:*}; checks=${pair##*:}
-  wt=/tmp/vpd-rv-$sha
+  wt=/tmp/vpd-rv-${sha//+/_}
   git -C /repo worktree remove --force $wt 2>/dev/null; rm -rf $wt $wt.verif
   git -C /repo worktree add -q --detach $wt HEAD || continue
-  if ! git -C $wt revert --no-commit $sha >/dev/null 2>&1; then
+  # sha may be several commits joined by '+' (a later fix that builds on an earlier one is reverted together with it)
+  ok=1
+  for one in ${sha//+/ }; do
+    git -C $wt revert --no-commit $one >/dev/null 2>&1 || ok=0
+  done
+  if [ $ok = 0 ]; then
     echo "$sha revert-conflict" >> $OUT; git -C /repo worktree remove --force $wt; continue
   fi
   for id in ${checks//,/ }; do
     res=$(tools/sens.sh $wt $id quick 2>&1)
     nviol=$(echo "$res" | grep -c "^VIOLATION")
-    echo "$sha $(git -C /repo log --format=%s -1 $sha | cut -c1-60) | $id violations_reported=$nviol $(echo "$res" | grep "^$id quick" | grep -o "violations=[0-9]*")" >> $OUT
+    echo "$sha $(git -C /repo log --format=%s -1 ${sha##*+} | cut -c1-60) | $id violations_reported=$nviol $(echo "$res" | grep "^$id quick" | grep -o "violations=[0-9]*")" >> $OUT
   done
   git -C /repo worktree remove --force $wt; rm -rf $wt.verif
 done
